@@ -311,7 +311,7 @@ def standard_check(ctx, spec):
         "print_assumptions": assum,
         "checker_cmd": f"cd /verif/coq && ./gen_project.sh && make -j16 {props_vo} && coqc audit.v "
                        f"(Print Assumptions of each Theorem in theories/Props/{mod}.v) + grep for Admitted/Axiom/... "
-                       f"+ coqc cases_*.v (vm_compute of {mod}.Model.check_case on the engine's cases)",
+                       f"+ coqc cases_*.v (vm_compute of {spec.get('check_fn', mod + '.Model.check_case')} on the engine's cases)",
         "trusted_base": KERNEL_TB + TIE_TB + spec.get("trusted_base", []),
     })
     ctx.assumptions += spec.get("assumptions", [])
